@@ -1,6 +1,7 @@
 From Coq Require Import List NArith Bool.
 Import ListNotations.
 Require Import MV.C12.Model MV.C12.Spec MV.C12.Exec MV.C12.Proofs MV.C12.History MV.C12.ExecProofs.
+Require MV.C12.ExecProm.
 Open Scope N_scope.
 Require Import MV.C12.Properties.
 
@@ -40,3 +41,6 @@ Check (C12_kinds_and_keys_independent : forall c t h tnow s,
 Print Assumptions C12_kinds_and_keys_independent.
 Check (C12_by_key_only_refuted : exists c h, by_kind c = false /\ snd (run c init h) <> spec_outs c h).
 Print Assumptions C12_by_key_only_refuted.
+Check (C12_prom_spec_ok_on_model : forall c, by_kind (fst c) = true ->
+  ExecProm.spec_ok c (ExecProm.run_case c) = true).
+Print Assumptions C12_prom_spec_ok_on_model.
